@@ -59,14 +59,14 @@ def run(chk):
     # ---- R3/R4 initial quantity
     chk.need(S.while_loops, "%s no longer has a sizing loop" % host)
     loop = S.while_loops[0]
-    q0 = loop.pre.get("q")
-    qname = "q"
-    if q0 is None:
-        # find the loop-carried name passed to transact
-        a0 = tr[-1].args[0] if tr[-1].args else None
-        chk.need(a0 is not None and a0[0] == "wlout", "%s: the traded quantity is not the sizing loop's result" % host)
-        qname = a0[1]
-        q0 = loop.pre.get(qname)
+    # the loop-carried name that is passed to transact (role: the quantity)
+    a0 = tr[-1].args[0] if tr[-1].args else None
+    wl = [n for n in sym.walk(a0)] if a0 is not None else []
+    wl = [n for n in wl if n[0] == "wlout"]
+    chk.need(bool(wl), "%s: the traded quantity is not the sizing loop's result" % host)
+    qname = wl[0][1]
+    q0 = loop.pre.get(qname)
+    chk.need(q0 is not None, "%s: the quantity is not initialised before the sizing loop" % host)
     ref = chk.ref(Q0_REF.replace("_price", R.SPRICE).replace("_position", R.POSITION).replace("_value", R.VALUE), "SecurityBase")
     rq = ref.exits[-1][1]
     gl = sym.sat(loop.entry_guard)
